@@ -141,7 +141,7 @@ func runC01(t *simrt.Tape, o Opts) Outcome {
 		st.Class = fmt.Sprintf("%s|%s|%v", h.base.Class(), kindsUsed(w), faultKinds(w))
 		st.Sample = map[string]any{"history": h.trace, "records": len(w.Recs), "faulty": faulty}
 	})
-	out = finish(s, w, st, false)
+	out = finish(s, w, st, true)
 	return out
 }
 
